@@ -84,7 +84,7 @@ package evalfilter
 //@   ensures @C06 compile.local: err == nil && istype(node, *ast.LocalVariable) && len(e.constants) <= 65536 ==> len(e.instructions) == old(len(e.instructions)) + 4 && e.instructions[old(len(e.instructions))] == code.OpConstant && e.instructions[old(len(e.instructions)) + 3] == code.OpLocal
 //@             && operandAt(e, old(len(e.instructions))) < len(e.constants) && isStr(e.constants[operandAt(e, old(len(e.instructions)))]) && sval(e.constants[operandAt(e, old(len(e.instructions)))]) == node.(*ast.LocalVariable).Token.Literal
 //@   ensures @C02 compile.return: err == nil && istype(node, *ast.ReturnStatement) ==> len(e.instructions) > old(len(e.instructions)) && e.instructions[len(e.instructions) - 1] == code.OpReturn
-//@   recursion structural on the syntax tree, whose depth the parser limits: nesting by parser.maxDepth (recursion guard of parseExpression), operator chains by parser.maxChain (loop invariant parseexpression.chain.bound; every parse function restores the count: *.chain clauses)
+//@   recursion structural on the syntax tree, whose depth the parser limits: nesting by parser.maxDepth (recursion guard of parseExpression), the height of every expression tree by parser.maxTreeDepth (parseExpression accounts for the depth of what was parsed inside its operands; loop invariant parseexpression.height)
 //@   panics maybe
 //@ loop 1 invariant compile.inv.len: len(e.instructions) >= old(len(e.instructions)) && (arr(e.instructions) == old(arr(e.instructions)) || fresh(e.instructions))
 //@ loop 1 invariant compile.inv.prefix: forall i in 0..old(len(e.instructions)) :: e.instructions[i] == old(e.instructions[i])
